@@ -405,4 +405,23 @@ def run_case(case):
         if moved:
             i = moved[0]
             bad("boundary-point-moved-back-to-snapshot", f"after '{change}' and another smooth(): boundary point {i} moved by {np.linalg.norm(after[inv[i]] - now[inv[i]]):.3g} (it was at {now[inv[i]].round(4).tolist()} when smoothing ran)", change=change)
+    # ... and a change of its topology: a block deleted after the smoother was made (the mesh is assembled again without
+    # it); smoothing is that of a smoother made afterwards
+    if dim == 3 and len(cells) >= 3:
+        for k in range(min(len(cells), 4)):
+            execs += 1
+            try:
+                sm, obj = make_smoother(pos, cells, dim)
+                obj.delete(obj.operations[k])
+                sm.smooth(3)
+                used = np.array([v.position for v in obj.vertices])
+                sm2, obj2 = make_smoother(pos, cells, dim)
+                obj2.delete(obj2.operations[k])
+                type(sm2)(obj2).smooth(3)
+                fresh = np.array([v.position for v in obj2.vertices])
+            except Exception as err:
+                bad("smooth-raised", f"{type(err).__name__}: {err}", change=f"delete-block-{k}")
+                continue
+            if used.shape != fresh.shape or np.max(np.linalg.norm(used - fresh, axis=1)) > 1e-12 * size:
+                bad("smoother-keeps-the-topology-it-was-made-with", f"block {k} deleted after the smoother was made: smooth(3) differs from that of a smoother made after the deletion by {np.max(np.linalg.norm(used - fresh, axis=1)) if used.shape == fresh.shape else 'another number of vertices'}", change=f"delete-block-{k}")
     return {"violations": violations, "outcome": f"{case['map']}:interior={len(interior)}", "execs": execs, "nontrivial_n": execs, "states": 1, "transitions": execs}
